@@ -94,3 +94,10 @@ def rules(t):
     out.append(W5.slice_scan_all(t, "C02.j"))
     out.append(W5.ordered_flag(t, "C02.k"))
     return out
+
+_rules_C02_w7b = rules
+def rules(t, *a, **kw):
+    import rules.wave7 as W7
+    out = _rules_C02_w7b(t, *a, **kw)
+    out.append(W7.no_silent_drop(t, "C02.l"))
+    return out
